@@ -290,6 +290,161 @@ def run_edges(case):
     return {'nontrivial': True, 'count': len(xs), 'labels': ['pow2' if is_pow2(n) else 'other']}
 
 
+# ----------------------------------------------------------------------------- vectorised brute-force histogram (large inputs, call histories)
+def check_histogram(data, flat, what=''):
+    """data: reported grid; flat: (P, 3) fractional coordinates in [0,1).  Every sample must be counted once, in voxel
+    floor(x * n) (either neighbour when x * n is within BAND of an integer)."""
+    data = np.asarray(data)
+    dims = np.array(data.shape)
+    if int(data.sum()) != len(flat) or (data < 0).any():
+        raise Violation('sum-conserved', f'{what}voxel sum {int(data.sum())} != frames x atoms = {len(flat)} (grid {data.shape})')
+    prod = flat * dims[None, :]
+    near = np.abs(prod - np.round(prod)) < 1e-7  # wide band: the vectorised product is itself rounded
+    amb = near.any(axis=1)
+    idx = np.minimum(np.floor(prod).astype(np.int64), dims[None, :] - 1)
+    strict = np.bincount(np.ravel_multi_index(tuple(idx[~amb].T), data.shape), minlength=data.size).reshape(data.shape)
+    rem = data - strict
+    if (rem < 0).any():
+        v = tuple(int(x) for x in np.argwhere(rem < 0)[0])
+        raise Violation('voxel-is-floor-of-coordinate', f'{what}voxel {v} of grid {data.shape} holds {int(data[v])} samples but {int(strict[v])} samples have floor(x*n) = {v} unambiguously')
+    if int(rem.sum()) != int(amb.sum()):
+        raise Violation('voxel-is-floor-of-coordinate', f'{what}{int(rem.sum())} unexplained samples vs {int(amb.sum())} on-edge samples')
+    if amb.any():
+        allowed = np.zeros(data.shape, dtype=np.int64)
+        for pt, nr in zip(prod[amb], near[amb]):
+            cands = []
+            for ax in range(3):
+                if nr[ax]:
+                    r = int(round(pt[ax]))
+                    cands.append({(r - 1) % dims[ax], r % dims[ax]})
+                else:
+                    cands.append({min(int(np.floor(pt[ax])), dims[ax] - 1)})
+            for i in cands[0]:
+                for j in cands[1]:
+                    for k in cands[2]:
+                        allowed[i, j, k] += 1
+        if (rem > allowed).any():
+            v = tuple(int(x) for x in np.argwhere(rem > allowed)[0])
+            raise Violation('voxel-is-floor-of-coordinate', f'{what}voxel {v}: {int(rem[v])} extra samples but only {int(allowed[v])} on-edge samples may fall there')
+    return int(amb.sum())
+
+
+def weyl_coords(T, N, alpha, x0):
+    """deterministic quasi-random coordinates in [0,1): frac(x0[a] + (t + 1) * alpha * (a + 1)) -- a pure function of the case"""
+    t = np.arange(1, T + 1, dtype=float).reshape(T, 1, 1)
+    a = np.arange(1, N + 1, dtype=float).reshape(1, N, 1)
+    c = np.asarray(x0, float).reshape(1, N, 3) + t * a * np.asarray(alpha, float).reshape(1, 1, 3)
+    c = c - np.floor(c)
+    c[c >= 1.0] = 0.0
+    return c
+
+
+def run_large(case):
+    """trajectories with 10^5 - 10^7 samples (size-dependent code paths: chunking, integer widths, sparse/dense switches)"""
+    from gemdat.volume import trajectory_to_volume
+
+    M = np.array(case['lattice']['matrix'], float)
+    T, N = case['frames'], case['atoms']
+    coords = weyl_coords(T, N, case['alpha'], case['x0'])
+    t = cases.trajectory(coords, ['Li'] * N, M, 1e-15, 300.0)
+    res = case['resolution']
+    vol = gcall(trajectory_to_volume, t, resolution=res) if case.get('via') == 'function' else gcall(t.to_volume, resolution=res)
+    data = np.asarray(vol.data)
+    L = np.linalg.norm(M, axis=1)
+    for ax in range(3):
+        if abs(data.shape[ax] - L[ax] / res) > 1.0 + 1e-9:
+            raise Violation('grid-size', f'axis {ax}: {data.shape[ax]} voxels for edge {L[ax]!r} and resolution {res!r}')
+    n_amb = check_histogram(data, coords.reshape(-1, 3), f'{T} frames x {N} atoms: ')
+    labels = [case['lattice']['family'], f'samples>=1e{int(np.log10(T * N))}', 'frames>65535' if T > 65535 else 'frames<=65535']
+    if n_amb:
+        labels.append('sample-on-voxel-edge')
+    return {'nontrivial': True, 'labels': labels}
+
+
+@st.composite
+def large_cases(draw, tier):
+    big = tier == 'thorough'
+    lat = draw(gen.lattices())
+    L = np.linalg.norm(np.array(lat['matrix']), axis=1)
+    samples = draw(st.sampled_from([1_050_000, 2_300_000, 120_000, 1_300_000] + ([4_500_000, 11_000_000] if big else [])))
+    N = draw(st.sampled_from([3, 1, 2, 7, 40]))
+    T = max(2, samples // N)
+    alpha = [draw(st.sampled_from([0.6180339887, 0.4142135623, 0.7320508075, 0.2360679775, 0.0001234567, 0.3333333333])) for _ in range(3)]
+    x0 = [[draw(st.sampled_from([0.0, 0.1, 0.5, 0.77, 0.999])) for _ in range(3)] for _ in range(N)]
+    res = float(L.min() / draw(st.sampled_from([8.0, 3.3, 1.5, 17.2, 40.5])))
+    return {'lattice': lat, 'frames': T, 'atoms': N, 'alpha': alpha, 'x0': x0, 'resolution': res, 'via': draw(st.sampled_from(['method', 'function']))}
+
+
+def run_history(case):
+    """call histories on ONE trajectory object: volumes at several resolutions interleaved with representation switches, in-place
+    extend and derived trajectories; every volume is compared with the brute-force histogram of the coordinates the object holds then"""
+    from gemdat.volume import trajectory_to_volume
+
+    M = np.array(case['lattice']['matrix'], float)
+    coords = np.array(case['coords'], float)
+    N = coords.shape[1]
+    t = cases.trajectory(coords, ['Li'] * (N - N // 2) + ['Na'] * (N // 2), M, 1e-15, 300.0)
+    cur = coords
+    labels = set()
+    n_vol = 0
+    seen_res = set()
+    for op in case['ops']:
+        k = op['op']
+        if k == 'volume':
+            res = case['resolutions'][op['res']]
+            obj, ref = t, cur
+            if op.get('on') == 'filter' and N // 2:
+                obj, ref = gcall(t.filter, 'Na'), cur[:, N - N // 2:]
+                labels.add('volume-of-filtered')
+            elif op.get('on') == 'slice' and len(cur) >= 2:
+                a = len(cur) // 2
+                obj, ref = gcall(lambda: t[a:]), cur[a:]
+                labels.add('volume-of-slice')
+            vol = gcall(trajectory_to_volume, obj, resolution=res) if op.get('via') == 'function' else gcall(obj.to_volume, resolution=res)
+            check_histogram(vol.data, ref.reshape(-1, 3), f'history step {case["ops"].index(op)} ({k}, resolution {res!r}, {len(ref)} frames): ')
+            n_vol += 1
+            if (op['res'], op.get('on')) in seen_res:
+                labels.add('same-resolution-again')
+            seen_res.add((op['res'], op.get('on')))
+        elif k == 'extend':
+            more = np.array(op['coords'], float)
+            other = cases.trajectory(more, ['Li'] * (N - N // 2) + ['Na'] * (N // 2), M, 1e-15, 300.0)
+            gcall(t.extend, other)
+            cur = np.concatenate([cur, more], axis=0)
+            if seen_res:
+                labels.add('extend-after-volume')
+        elif k == 'displacements':
+            gcall(lambda: t.displacements)
+        elif k == 'positions':
+            gcall(lambda: t.positions)
+        elif k == 'free-energy':
+            gcall(gcall(t.to_volume, resolution=case['resolutions'][0]).get_free_energy, 300.0)
+    return {'nontrivial': n_vol >= 2 and ('extend-after-volume' in labels or 'same-resolution-again' in labels), 'labels': sorted(labels)}
+
+
+@st.composite
+def history_cases(draw, tier):
+    lat = draw(gen.lattices())
+    L = np.linalg.norm(np.array(lat['matrix']), axis=1)
+    N = draw(st.integers(1, 4))
+    grid = st.integers(0, 63).map(lambda k: (k + 0.37) / 64)  # well inside voxels of any grid used here up to round-off switches
+
+    def chunk(T):
+        return [[[draw(grid) for _ in range(3)] for _ in range(N)] for _ in range(T)]
+
+    resolutions = [float(L.min() / d) for d in draw(st.lists(st.sampled_from([1.5, 2.5, 4.2, 7.7]), min_size=1, max_size=3, unique=True))]
+    ops = []
+    for _ in range(draw(st.integers(2, 8))):
+        k = draw(st.sampled_from(['volume', 'volume', 'volume', 'extend', 'displacements', 'positions', 'free-energy']))
+        if k == 'volume':
+            ops.append({'op': k, 'res': draw(st.integers(0, len(resolutions) - 1)), 'via': draw(st.sampled_from(['method', 'function'])), 'on': draw(st.sampled_from([None, None, 'filter', 'slice']))})
+        elif k == 'extend':
+            ops.append({'op': k, 'coords': chunk(draw(st.integers(1, 4)))})
+        else:
+            ops.append({'op': k})
+    return {'lattice': lat, 'coords': chunk(draw(st.integers(2, 5))), 'resolutions': resolutions, 'ops': ops}
+
+
 SUBS = [
     Sub(name='trajectory-histogram', kind='hyp', run=run_traj, strategy=traj_cases,
         rule='1-4 (8) frames x 1-3 (5) atoms in all lattices; resolution free in (0.05 Lmin, Lmin] or aimed at a grid size (power of two for exact edges); coordinates uniform, exactly on voxel edges k/n, one ulp beside them, in the last voxel',
@@ -303,4 +458,10 @@ SUBS = [
     Sub(name='every-edge-enum', kind='enum', run=run_edges, size=edge_size, case_at=edge_case, exhaustive=True,
         rule='complete enumeration: for every grid size n <= 384 (quick) / 2048 (thorough), samples exactly on every voxel edge k/n, one ulp below and above it, at every voxel centre and at the last representable coordinate below 1, binned through trajectory_to_volume (each sample is one evaluation)',
         shards={'quick': 16, 'thorough': 16}),
+    Sub(name='large-trajectories', kind='hyp', run=run_large, strategy=large_cases,
+        rule='trajectories with 1.2e5 - 2.3e6 (1.1e7) samples (1-40 atoms, so up to 2.3e6 frames) of deterministic quasi-random coordinates in all lattices, 1-40 voxels per axis: every sample counted once in floor(x*n) (vectorised brute force); reaches size-dependent code paths (chunking, integer widths)',
+        n={'quick': 2, 'thorough': 4}, shards={'quick': 6, 'thorough': 16}),
+    Sub(name='volume-histories', kind='hyp', run=run_history, strategy=history_cases,
+        rule='2-8 step call histories on one trajectory object: volumes at 1-3 resolutions (method / function; of the object, of a filtered species, of a slice) interleaved with in-place extend, representation switches and free-energy conversion; every volume compared with the brute-force histogram of the frames the object holds at that moment',
+        n={'quick': 60, 'thorough': 1500}, shards={'quick': 6, 'thorough': 16}),
 ]
